@@ -55,7 +55,13 @@ FormatClauses(e) ==
         fin  == IsFin(a)
         \* strip the padding
         pl   == CountLead(o, fill, 1)
-        pr   == IF pl = Len(o) THEN 0 ELSE CountTrail(o, fill, Len(o))
+        \* trailing padding: the fill characters after the symbol.  The symbol itself may end with the fill
+        \* character, so among the trailing fill characters those that complete " " ++ symbol belong to the body
+        trail == IF pl = Len(o) THEN 0 ELSE CountTrail(o, fill, Len(o))
+        tailOK(k) == LET n == Len(sym) + 1 IN
+                     Len(o) - k >= n /\ SubSeq(o, Len(o) - k - n + 1, Len(o) - k) = <<SP>> \o sym
+        prC  == {k \in 0..trail : tailOK(k)}
+        pr   == IF prC = {} THEN trail ELSE CHOOSE k \in prC : \A j \in prC : j <= k
         core == SubSeq(o, pl + 1, Len(o) - pr)
         pn   == ParseNumber(core)
         rest == SubSeq(core, pn.next, Len(core))
